@@ -73,13 +73,27 @@ def run_scripts(pid, rundir, scenarios, vh=VH, shards=16, verbose=False, driver=
         m = re.search(r"CHECKED (\d+) MISMATCHES (\d+)", out)
         if m:
             checked += int(m.group(1))
-        elif driver and rc in (0, 1):
+        elif driver and rc in (0, 1) and not races and "err stuck" not in "".join(read_lines(tp)[-3:] if os.path.exists(tp) else []):
             errors.append(out[-2000:])
         mism.extend(re.findall(r"MISMATCH .*\n  impl : .*\n  model: .*", out))
         if os.path.exists(tp):
             for l in read_lines(tp):
                 if l.startswith("X "):
                     oracle.append(l)
+        races = re.findall(r"WARNING: DATA RACE\n(.*?)\n==================", out, re.S)
+        for rep in races[:3]:
+            frames = [l.strip() for l in rep.splitlines() if "github.com/XiXi-2024/xixi-kv" in l and "()" in l]
+            where = "; ".join(dict.fromkeys(frames[:4])) or rep.splitlines()[1].strip()
+            last = None
+            if os.path.exists(tp):
+                for l in read_lines(tp):
+                    if l.startswith("# begin S "):
+                        last = l.split()[3]
+            oracle.append("X C09 scenario=%s data race reported by the Go race detector: %s" % (last or "?", where[:300]))
+        if races and rc == 66:
+            rc = 1
+        if rc == 7:
+            rc = 1  # the harness stopped after a stuck concurrent operation; its X line says so
         if rc not in (0, 1):
             died = re.search(r"(fatal error: [^\n]*|unexpected signal[^\n]*|SIGBUS[^\n]*|signal: [^\n]*)", out)
             last = None
@@ -294,6 +308,40 @@ def corr_simple(pid, tier, seed, gen, nq, nt, oracle_props, rule, dflags="-noeve
             "mismatches": r["mismatches"], "oracle": oracle, "errors": r["errors"], "scen_index": idx}
 
 
+def corr_race(pid, tier, seed):
+    """C09: every kind of call at once, under the Go race detector (vh-race), plus the C08 scenarios."""
+    core.build_vh_race()
+    rundir = _rundir(pid)
+    scen = corpus_scenarios(pid)
+    q = tier == "quick"
+    hist = {}
+    s, h = gen_scripts("concgen", seed, 24 if q else 600, rundir, extra="-mix")
+    scen.extend(s)
+    hist.update(h)
+    s2, h2 = gen_scripts("concgen", seed + 1, 16 if q else 400, rundir, extra="-stress 2")
+    scen.extend(s2)
+    for k, v in h2.items():
+        hist[k] = hist.get(k, 0) + v
+    for i, sc in enumerate(scen):
+        sc[0] = "S %d" % i
+    r = run_scripts(pid, rundir, scen, vh=os.path.join(core.BUILD, "vh-race"), dflags="-noevents")
+    idx = {str(i): sc for i, sc in enumerate(scen)}
+    oracle = [o for o in r["oracle"] if o.split()[1] in ("C09", "C08")]
+    calls = 0
+    for tp in r["traces"]:
+        if os.path.exists(tp):
+            for l in read_lines(tp):
+                m = re.search(r"conc(?:mix|stress) .*# calls=(\d+)", l)
+                if m:
+                    calls += int(m.group(1))
+    hist["concurrent_calls_under_race_detector"] = calls
+    sample = scen[len(scen) // 2] if scen else []
+    return {"evaluations": len(scen), "distinct_nontrivial": nontrivial_count(scen, lambda sc: any("conc" in l for l in sc)),
+            "rule": "harness/vh concgen -mix (2-16 goroutines issuing a random mix of Put, Get, Delete, ListKeys, Fold, iterator walks in both directions, Stat, Sync, batches (Sync and not) and Merge on six keys, every index type and shard count, file limits of 700 B - 40 KiB forcing rotations) and the C08 scenarios, all executed by a binary built with the Go race detector; findings: race reports, recovered panics, runtime fatal errors, a watchdog for stuck clients, errors returned by individually valid calls, unordered or duplicated ListKeys / Fold / iterator output, live mapping != mapping after restart; non-trivial = contains a concurrent operation; distinct by md5",
+            "samples": [sample[:20]], "hist": hist, "observations_compared": r["checked"],
+            "mismatches": r["mismatches"], "oracle": oracle, "errors": r["errors"], "scen_index": idx}
+
+
 def corr_iter(pid, tier, seed):
     rundir = _rundir(pid)
     scen = corpus_scenarios(pid)
@@ -380,6 +428,11 @@ REGISTRY = {
                                                "harness/vh concgen: (a) stepped schedules - 2 to 4 clients (real goroutines) on overlapping keys, every interleaving position drawn at random, Get split at the schedule point between index lookup and file read (hook H6), results of every completed call compared with the Conc model run on the same schedule and with a reference fixed at each call's linearization point; (b) a writer parked inside its critical section (hooks put.appended / delete.checked / delete.appended) while a second client calls Put / Delete / Get: a writer must stay blocked; (c) free-running stress of 2-8 goroutines (every fourth scenario, half of them with a concurrent Merge): call/return order and results checked for per-key linearizability, live mapping = final reads = mapping after a restart"),
         "assumptions": ["the decomposition of calls into atomic actions (Put and Delete: one critical section of the engine lock containing append and index update; Get: index lookup, then file read) is extracted from db.go by translator T2 and checked by a theorem on every run; sync.RWMutex, the shard locks and the Go memory model are trusted",
                         "ListKeys, Fold, iterators, batches and Merge running concurrently are exercised by the stress part (and Merge with racing writers by C06's mergei scenarios), not covered by the linearizability theorem"],
+    },
+    "C09": {
+        "corr": lambda tier, seed: corr_race("C09", tier, seed),
+        "assumptions": ["freedom from data races, panics and deadlocks is a property of the running program: it is searched for with the Go race detector, recover, a watchdog and error classification on generated concurrent mixes; the theorems cover the lock protocol only (see level note)",
+                        "the race detector sees the accesses that actually happen in a run; accesses through the memory-mapped region are invisible to it"],
     },
     "C10": {
         "corr": lambda tier, seed: corr_iter("C10", tier, seed),
